@@ -115,6 +115,7 @@ struct Conn {
 	bool client_gone = false;               // client disconnected, died, or saw a disconnect error
 	bool server_gone = false;
 	int fc = 0; uint64_t fc_changes = 0;
+	bool fc_changing = false;     // the server is inside qb_ipcs_request_rate_limit(): either level may be in force
 	unsigned auth_uid = 0, auth_gid = 0, auth_mode = 0600;
 	std::string dir;                        // /dev/shm/qb-...-XXXXXX
 	int refused = 0;
@@ -495,10 +496,17 @@ static void do_server_op(const Op &op, Conn *ctx)
 		if (!G.svc || G.svc_destroyed) break;
 		static const enum qb_ipcs_rate_limit RL[5] = { QB_IPCS_RATE_FAST, QB_IPCS_RATE_NORMAL, QB_IPCS_RATE_SLOW, QB_IPCS_RATE_OFF, QB_IPCS_RATE_OFF_2 };
 		int k = (int)(((op.a[3] % 5) + 5) % 5);
-		qb_ipcs_request_rate_limit(G.svc, RL[k]);
 		int fc = k == 3 ? 1 : k == 4 ? 2 : 0;
+		// the call is not atomic for the clients (it makes system calls per connection): a client call that overlaps it
+		// may see either level, so the change counts from before the call starts until after it has returned
 		for (size_t i = 0; i < G.conns.size(); i++) {
 			Conn &c = G.conns[i];
+			if (c.accept_ok && !c.destroyed && c.closed_calls == 0 && c.created && c.fc != fc) { c.fc_changes++; c.fc_changing = true; }
+		}
+		qb_ipcs_request_rate_limit(G.svc, RL[k]);
+		for (size_t i = 0; i < G.conns.size(); i++) {
+			Conn &c = G.conns[i];
+			c.fc_changing = false;
 			if (c.accept_ok && !c.destroyed && c.closed_calls == 0 && c.created) { if (c.fc != fc) { count(p_fc_toggled); c.fc_changes++; } c.fc = fc; }
 		}
 		break; }
@@ -741,7 +749,7 @@ static void client_send(ClientSt &k, const Op &op, int mode)
 	ssize_t r;
 	size_t rcap = (size_t)c.max_msg + 64;
 	uint8_t *rbuf = NULL;
-	int fc_before = c.fc; uint64_t fc_ch_before = c.fc_changes;
+	int fc_before = c.fc_changing ? 0 : c.fc; uint64_t fc_ch_before = c.fc_changes;
 	bool disc_before = k.saw_disconnect;
 	int64_t w0 = task_blocked_ns();
 	if (mode == 0) r = qb_ipcc_send(k.cc, heap, m.len);
